@@ -125,6 +125,15 @@ def mk_opn(sym, items):
         return mk_cat(flat)
     if len(flat) == 1:
         return flat[0]
+    if sym == "+":
+        # np.arange(a, b, s) + c  ==  np.arange(a + c, b + c, s)   (integer constant c, explicit start and stop)
+        ar = [i for i in flat if isinstance(i, tuple) and i[0] == "call" and i[1] == ("x", "numpy.arange") and len(i[2]) in (2, 3) and not i[3]]
+        cs = [i for i in flat if is_const(i) and isinstance(i[1], int) and not isinstance(i[1], bool)]
+        if len(ar) == 1 and cs and len(ar) + len(cs) == len(flat):
+            c = sum(i[1] for i in cs)
+            a = ar[0]
+            args = (mk_opn("+", [a[2][0], C(c)]), mk_opn("+", [a[2][1], C(c)])) + tuple(a[2][2:])
+            return ("call", a[1], args, ())
     return ("opn", sym, tuple(sorted(flat, key=key)))
 
 
@@ -799,6 +808,8 @@ class ANF:
                         return C(recv[1].format(*[a[1] for a in args]))
                     except Exception:
                         pass
+                if f.attr == "get" and len(args) == 1 and not kw:
+                    args = args + [C(None)]         # mapping.get(k) is mapping.get(k, None)
                 if f.attr in ARRAY_METHODS_AS_FUNCS and recv[0] not in ("dict", "list", "tuple", "set", "c", "new"):
                     # x.argsort() is np.argsort(x) (numpy dispatches the function to the method for non-ndarrays)
                     fn = ("x", "numpy." + f.attr)
